@@ -316,6 +316,9 @@ def build_harness(name, sources, flavour, with_lib=True, extra_cflags=(), extra_
 def flavour_env(flavour, extra=None):
     env = dict(os.environ)
     env.update(FLAVOURS[flavour]["env"])
+    # temporary directories of the harnesses (log files of C15, argument files of C09) live inside the scratch directory of
+    # this check: removed with it, also when a harness process is killed or aborts
+    env["TMPDIR"] = scratch()
     if extra:
         env.update(extra)
     return env
